@@ -300,3 +300,83 @@ Fixpoint trace_hist (proj : project) (y : sys) (phases : list phase_spec)
      map (fun x => (fst x, negb (oN_eqb (fs y2 (fst x)) (fs y (fst x))))) echg)
       :: trace_hist proj y2 rest
   end.
+
+(* ------------------------------------------------------------------------------------------ *)
+(* Beyond the static DAG: plan edits that add, drop or redefine steps, with recycling          *)
+(* ------------------------------------------------------------------------------------------ *)
+(* Between two builds the plan may change: the project [P] becomes [P'].  What the rerun of the
+   plan does to the stored workflow is [retarget]:
+     - a step of [P'] whose id and whole definition (inputs, variables, outputs) are those of a
+       step of [P] is fully recycled: it keeps its state and its recorded trace
+       (Trellis.try_recycle + Step.can_recycle / after_recycle);
+     - a step with a known id but another definition is created anew on the old node (partial
+       recycle in Trellis.create): PENDING.  The code keeps the stored hash of such a step; the
+       model drops the trace, which only forgoes a possible skip;
+     - a new id is a new PENDING step; a dropped step is forgotten (detached, then removed by
+       the cleanup pass together with its outputs: in the world handed to the next build its
+       former outputs are whatever the user has at those paths, normally nothing).
+   Static declarations are part of the world: a path that no plan declares is not visible to
+   the build, whatever is on disk ([visible]).
+   Then the startup rescan [resync] of the new project against the new world marks, by the
+   ordinary pending propagation, every recycled step one of whose inputs changed, lost its
+   producer, got a new or redefined producer, or lost its declaration.  The last case is what
+   the code does NOT do (defect D4): see [resync_code] and props/C01.v C01_D4_engine_refuted. *)
+Fixpoint listN_eqb (a b : list N) : bool :=
+  match a, b with
+  | [], [] => true
+  | x :: a', y :: b' => (x =? y) && listN_eqb a' b'
+  | _, _ => false
+  end.
+Definition step_eqb (a b : step) : bool :=
+  (sid a =? sid b) && listN_eqb (inp a) (inp b) && listN_eqb (envn a) (envn b) &&
+  listN_eqb (out a) (out b).
+Definition find_step (P : project) (id : N) : option step := find (fun s => sid s =? id) P.
+Definition kept (P P' : project) (id : N) : bool :=
+  match find_step P id, find_step P' id with
+  | Some a, Some b => step_eqb a b
+  | _, _ => false
+  end.
+Definition retarget (P P' : project) (y : sys) : sys :=
+  mkSys (fs y) (ev y)
+        (fun id => if kept P P' id then tr y id else None)
+        (fun id => if kept P P' id then stt y id else Pending).
+
+(* what a build sees of the disk: only declared static paths *)
+Definition visible (statics : list N) (raw : N -> option N) : N -> option N :=
+  fun p => if memN p statics then raw p else None.
+
+(* the code's version of the rescan after a plan edit: a path whose declaration was dropped is
+   not a change (its node is merely detached; nothing marks its consumers) *)
+Definition resync_code (proj : project) (y : sys) (w : world) : sys :=
+  let f' := fun x => if is_output proj x then fs y x else fst w x in
+  mkSys f' (snd w) (tr y)
+        (mark proj (fun x => match f' x with
+                             | Some _ => negb (oN_eqb (f' x) (fs y x))
+                             | None => false end)
+                   (fun n => negb (oN_eqb (snd w n) (ev y n))) (stt y)).
+
+Section Dynamic.
+  Variable run : N -> list (option N) -> list (option N) -> N -> N.
+
+  (* one phase: the plan now defines [P'], the world is [w] *)
+  Definition rebuild_dyn (P : project) (y : sys) (P' : project) (w : world) : sys :=
+    build run P' (resync P' (retarget P P' y) w).
+  Definition rebuild_dyn_code (P : project) (y : sys) (P' : project) (w : world) : sys :=
+    build run P' (resync_code P' (retarget P P' y) w).
+
+  (* a history of (project, world) pairs, from nothing; the state carries the current project *)
+  Definition dyn_step (acc : project * sys) (pw : project * world) : project * sys :=
+    (fst pw, rebuild_dyn (fst acc) (snd acc) (fst pw) (snd pw)).
+  Definition run_dyn (hist : list (project * world)) : project * sys :=
+    fold_left dyn_step hist ([], empty_sys).
+  Definition dyn_step_code (acc : project * sys) (pw : project * world) : project * sys :=
+    (fst pw, rebuild_dyn_code (fst acc) (snd acc) (fst pw) (snd pw)).
+  Definition run_dyn_code (hist : list (project * world)) : project * sys :=
+    fold_left dyn_step_code hist ([], empty_sys).
+
+  (* boolean form of same_result for concrete witnesses *)
+  Definition same_result_b (proj : project) (y z : sys) : bool :=
+    forallb (fun s => Bool.eqb (is_succ (stt y (sid s))) (is_succ (stt z (sid s))) &&
+                      (negb (is_succ (stt y (sid s))) ||
+                       forallb (fun p => oN_eqb (fs y p) (fs z p)) (out s))) proj.
+End Dynamic.
